@@ -176,6 +176,11 @@ def build(tree, run, path=(), index=None):
         s = Leaf(run, k, path)
     elif k == 'smiss':
         s = getattr(S, 'nope%s' % ''.join(str(i) for i in path))
+    elif k == 'iter':
+        from glom import Iter
+        s = Iter(child(0))
+    elif k == 'consume':
+        s = list
     elif k == 'probe':
         s = Probe(run, path)
     elif k == 'read':
